@@ -74,6 +74,9 @@ func vBlockRoundTrip[T any](l vLeafSpec[T]) {
 	verifAssert(vBytesEq(b.Buf[m:], b0.Buf), "bytes-independent-of-buffer")
 
 	switch vMode {
+	case 6:
+		vSegmented(l, b0.Buf, version, vals)
+		return
 	case 1:
 		vTruncated(l, b0.Buf, version)
 		return
@@ -367,3 +370,55 @@ func vHistory[T any](l vLeafSpec[T]) {
 func VerifC16GenLeaves()   { vMode = 5; VerifC01GenLeaves() }
 func VerifC16PlainLeaves() { vMode = 5; VerifC01PlainLeaves() }
 func VerifC16Composites()  { vMode = 5; VerifC01Composites() }
+
+// vSegmented (C08): the same block delivered in pieces decodes to the same values, consumes
+// the same bytes, and a truncated stream fails whatever the segmentation.
+func vSegmented[T any](l vLeafSpec[T], wire []byte, version int, vals []T) {
+	cr := &vChunkReader{data: wire}
+	switch verifChoice("segmentation", 3) {
+	case 0:
+		cr.policy = 0
+	case 1:
+		cr.policy = 1
+		if len(wire) > 1 {
+			cr.k = verifIntRange("split", 1, len(wire)-1)
+		}
+	case 2:
+		cr.policy = 2
+		n := len(wire)
+		if mb := verifParam("maskbytes", 8); n > mb {
+			n = mb
+		}
+		if n > 1 {
+			cr.mask = uint64(verifIntRange("mask", 0, 1<<(n-1)-1))
+		}
+	}
+	out := l.mk()
+	r := NewReader(cr)
+	var d Block
+	err := d.DecodeBlock(r, version, Results{{Name: "c", Data: out}})
+	verifAssert(err == nil, "segmented-decode-ok")
+	verifAssert(out.Rows() == len(vals) && d.Rows == len(vals), "segmented-rows")
+	eq := true
+	for i := 0; i < len(vals) && i < out.Rows(); i++ {
+		eq = vAnd(eq, l.eq(l.row(out, i), vals[i]))
+	}
+	verifAssert(eq, "segmented-values")
+	verifAssert(vExhausted(r) && cr.pos == len(wire), "segmented-consumed-all")
+	// a cut stream fails under the same segmentation
+	if len(wire) > 0 {
+		cut := len(wire) - 1 - verifIntRange("cutback", 0, verifParam("maxcutback", 1))
+		if cut >= 0 {
+			cr2 := &vChunkReader{data: wire[:cut], policy: cr.policy, k: cr.k, mask: cr.mask}
+			out2 := l.mk()
+			var d2 Block
+			err2 := d2.DecodeBlock(NewReader(cr2), version, Results{{Name: "c", Data: out2}})
+			verifAssert(err2 != nil, "segmented-truncated-rejected")
+		}
+	}
+	verifObserveU64("reads", uint64(cr.reads))
+}
+
+func VerifC08GenLeaves()   { vMode = 6; VerifC01GenLeaves() }
+func VerifC08PlainLeaves() { vMode = 6; VerifC01PlainLeaves() }
+func VerifC08Composites()  { vMode = 6; VerifC01Composites() }
